@@ -268,6 +268,21 @@ class StringInterp(AbsInt):
         for s in ss:
             self.emitted.setdefault(s, node)
 
+    def emit_list(self, e: ast.AST, st, node):
+        """`out.extend(<e>)`: list displays contribute their elements; output lists were emitted when they were appended to."""
+        parts = [e]
+        while parts:
+            x = parts.pop()
+            if isinstance(x, ast.BinOp) and isinstance(x.op, ast.Add):
+                parts += [x.left, x.right]
+            elif isinstance(x, (ast.List, ast.Tuple)):
+                for el in x.elts:
+                    self.emit(el, st, node)
+            elif isinstance(x, ast.Name) and x.id in self.out_lists:
+                continue
+            else:
+                raise AnalysisError(f"{self.fi.qualname}: `{short(node)}` extends the result with something outside the template interpreter's model")
+
     # -- statements
     def stmt(self, s, st):
         if isinstance(s, ast.Assign) and len(s.targets) == 1:
@@ -275,6 +290,9 @@ class StringInterp(AbsInt):
             if isinstance(t, ast.Name) and isinstance(s.value, ast.List) and not s.value.elts and t.id not in self.out_lists \
                     and self._is_part_list(t.id):
                 st[t.id] = StrList([()])
+                return st
+            if isinstance(t, ast.Name) and t.id in self.out_lists and isinstance(s.value, ast.BinOp):
+                self.emit_list(s.value, st, s)
                 return st
             if isinstance(t, ast.Name) and self.members_of(s.value, st) is not None and not isinstance(s.value, ast.Name):
                 st[t.id] = ("$members", self.members_of(s.value, st))
@@ -329,6 +347,8 @@ class StringInterp(AbsInt):
                 recv, name = call_method(c)
                 if isinstance(recv, ast.Name) and recv.id in self.out_lists and name == "append" and c.args:
                     self.emit(c.args[0], st, c)
+                elif isinstance(recv, ast.Name) and recv.id in self.out_lists and name == "extend" and c.args:
+                    self.emit_list(c.args[0], st, c)
                 elif recv is None and name in self.nested:
                     self.inline(self.nested[name], st)
 
